@@ -50,8 +50,14 @@ def run(ctx):
     pop = panics.population(fb, R)
     classes = {c["key"]: c for c in json.load(open(AUDIT)).get("lib", [])}
     by = {}
+    n_out = 0
     for s in pop:
-        by.setdefault(panics.coarse_key(s), []).append(s)
+        k = panics.lib_key(s)
+        if k is None:
+            n_out += 1
+            continue
+        by.setdefault(k, []).append(s)
+    chk.counts["sites_outside_definition"] = n_out
     for k, ss in sorted(by.items()):
         c = classes.get(k)
         where = sorted({"%s@%s" % (s["fn"].split("::")[-1], s["loc"]) for s in ss})
@@ -82,8 +88,9 @@ def run(ctx):
     full = {"partial", "value", "serde"} <= fb.features
     chk.floor("R06.1", "functions in scope", len(R), 400 if full else 250)
     chk.floor("R06.1", "may-panic sites enumerated", len(pop), 250 if full else 150)
+    chk.floor("R06.1", "sites inside the audit's definition", sum(len(v) for v in by.values()), 100 if full else 50)
     for s in pop[:6]:
-        chk.sample({"fn": s["fn"], "class": panics.coarse_key(s), "loc": s["loc"]})
+        chk.sample({"fn": s["fn"], "class": panics.lib_key(s), "loc": s["loc"]})
 
     # ---- R06.2 (shared with C07 R07.5): run that rule's funnel part through a sub-check
     class Sub:
@@ -174,11 +181,36 @@ def run(ctx):
             valued = "ToPrimitive::to_" in term or " as " in term and "to_usize" in term
             if not re.search(r"num::ToPrimitive::to_\w+\(|var:\w*usize\w*", term):
                 continue
+            if f["name"] == "next":
+                continue    # the explicit-loop idiom is handled below
             nrange += 1
             if f["name"] in EXHAUSTIVE:
                 chk.violation("R06.5", "exhaustive:%s:%s" % (p, f["name"]), "%s iterates a range whose length is an operand value with the exhaustive consumer `%s`: an overflowing computation runs on for up to 2^63 steps instead of stopping (hang at parse time through constant folding)" % (p, f["name"]), loc(t["span"]))
             else:
                 chk.ok("R06.5", "%s: value-sized range consumed by short-circuiting `%s`" % (p.split("::")[-1], f["name"]), "", loc(t["span"]))
+        # explicit loops (`for k in 1..=n { .. }`): the loop needs a second way out besides exhausting the range
+        loops = mir.natural_loops(b)
+        for bi, t in mir.calls(b):
+            f = t["func"]
+            if f.get("k") != "fndef" or f.get("trait") != "std::iter::Iterator" or f.get("name") != "next" or not t["args"]:
+                continue
+            term = org.expand_named(org.op_term(t["args"][0]))
+            if "std::ops::Range" not in term or not re.search(r"num::ToPrimitive::to_\w+\(|var:\w*usize\w*", term):
+                continue
+            hs = [h for h, blks in loops.items() if bi in blks]
+            if not hs:
+                continue
+            blks = min((loops[h] for h in hs), key=len)
+            nrange += 1
+            normal = mir.normal_blocks(b)
+            exits = {e for e in mir.loop_exits(b, blks) if e[1] in normal and b["blocks"][e[1]]["term"]["k"] != "unreachable"}
+            # the exhaustion exit leaves from the switch on the result of `next`
+            sw = t["target"]
+            other = {e for e in exits if e[0] != sw}
+            if other:
+                chk.ok("R06.5", "%s: loop over a value-sized range has an early exit" % p.split("::")[-1], "%d exit edges" % len(exits), loc(t["span"]))
+            else:
+                chk.violation("R06.5", "exhaustive:%s:for" % p, "%s loops over a range whose length is an operand value and can only stop when the range is exhausted: an overflowing computation runs on for up to 2^63 steps (hang at parse time through constant folding)" % p, loc(t["span"]))
     chk.floor("R06.5", "value-sized ranges in Val operators", nrange, 1)
 
     # ---- R06.4
